@@ -320,12 +320,17 @@ impl JoinAcceptDesc {
 }
 
 pub fn encode_join_accept(app_key: &[u8; 16], d: &JoinAcceptDesc) -> Vec<u8> {
-    let mut clear = vec![0x20];
+    encode_join_accept_mhdr(app_key, d, 0x20)
+}
+
+/// The same with an arbitrary MHDR octet (RFU / Major bits set): the MIC covers the MHDR as sent.
+pub fn encode_join_accept_mhdr(app_key: &[u8; 16], d: &JoinAcceptDesc, mhdr: u8) -> Vec<u8> {
+    let mut clear = vec![mhdr];
     clear.extend_from_slice(&d.body());
     let mic = join_mic(app_key, &clear);
     clear.extend_from_slice(&mic);
     let a = Aes128::new(app_key);
-    let mut out = vec![0x20];
+    let mut out = vec![mhdr];
     for c in clear[1..].chunks(16) {
         out.extend_from_slice(&a.decrypt(c.try_into().unwrap()));
     }
